@@ -97,7 +97,10 @@ pub fn rule_alphabet(thorough: bool) -> Vec<Rule> {
         v.push(Rule::Simple(Kind::Disallow, p.to_string()));
     }
     for pattern in ["a", "*"] {
-        for in_src in [None, Some("d"), Some("d/")] {
+        for in_src in [None, Some("d"), Some("d/"), Some("")] {
+            if in_src == Some("") && (pattern != "a" || !thorough) {
+                continue;
+            }
             for products in [false, true] {
                 for in_dst in [None, Some("e")] {
                     for from in ["other", "nostep"] {
